@@ -51,6 +51,8 @@ def corpus_cases(ctx):
     if os.path.isdir(bdir):
         for fn in sorted(os.listdir(bdir)):
             if fn.endswith('.css'):
+                if ctx.quick() and fn != 'sample_normalize.css':
+                    continue        # the large style sheets (bootstrap, gumby, fontawesome) belong to the thorough tier
                 b = open(os.path.join(bdir, fn), 'rb').read()
                 for c2 in ((False,) if ctx.quick() else (False, True)):
                     out.append(mk(b, False, c2, 'bench:' + fn))
@@ -58,6 +60,8 @@ def corpus_cases(ctx):
     if os.path.isdir(cdir):
         for fn in sorted(os.listdir(cdir)):
             b = open(os.path.join(cdir, fn), 'rb').read()
+            if ctx.quick() and len(b) > 60000:
+                continue            # bootstrap-sized corpus files: thorough tier
             out.append(mk(b, False, False, 'corpus:' + fn))
             out.append(mk(b, True, False, 'corpus:' + fn))
     return out
@@ -103,7 +107,7 @@ def tv(ctx, lines, timeout=1700):
     n = len(lines)
     if n == 0:
         return {}, set()
-    shards = max(1, min(vlib.JOBS, n // 150 + 1))
+    shards = max(1, min(vlib.JOBS, n // 1500 + 1))      # a JVM start costs about as much as 1500 lines
     vlib._speccopy(ctx)          # before the worker threads race for it
     files, index = [], []
     for s in range(shards):
@@ -205,10 +209,10 @@ RGB_SLOT = dict(q=L('0', '255', '128', '300', '20%', '100%', '50%'),
 FAMS = [
     dict(fam='trbl', props=['margin', 'padding', 'border-width'], kind='list', min=1, max=dict(q=4, t=4),
          slots=[dict(q=L('0', '0px', '1px', '0%', '.5em', 'auto'),
-                     t=L('0', '0px', '1px', '0%', '.5em', 'auto', '-1px', '0.0em', '1PX', 'calc(1px + 0px)', '0s'))]),
+                     t=L('0', '0px', '1px', '0%', '.5em', 'auto', '-1px', '0.0em', '1PX', 'calc(1px + 0px)', '0deg'))]),
     dict(fam='bgpos', props=['background-position'], kind='list', min=1, max=dict(q=4, t=4),
          slots=[dict(q=L('left', 'right', 'top', 'bottom', 'center', '0', '10%', '50%', '100%', '1px'),
-                     t=L('left', 'right', 'top', 'bottom', 'center', '0', '0%', '0px', '10%', '50%', '100%', '1px', '0.5px', '-5%', 'CENTER', ','))]),
+                     t=L('left', 'right', 'top', 'bottom', 'center', '0', '0%', '0px', '10%', '50%', '100%', '1px', '0.5px', '-5%', '10.5%', 'CENTER', ','))]),
     dict(fam='bgsize', props=['background-size'], kind='list', min=1, max=dict(q=3, t=4),
          slots=[dict(q=L('auto', '0', '10%', '1px', 'cover', 'contain', ','), t=L('auto', '0', '0px', '10%', '1px', 'cover', 'contain', ',', 'AUTO'))]),
     dict(fam='bgrepeat', props=['background-repeat'], kind='list', min=1, max=dict(q=3, t=4),
@@ -256,8 +260,8 @@ FAMS = [
                 dict(q=L('0%', '10%', '50%', '100%'), t=L('0%', '3%', '10%', '25%', '50%', '75%', '100%', '150%', '-1%')), ALPHA_SLOT]),
     dict(fam='hsls', props=COLOR_PROPS, kind='func', fn='hsla', sep='space',
          slots=[dict(q=L('0', '48', '210'), t=L('0', '30', '48', '120', '210', '-180', '400')),
-                dict(q=L('0%', '50%', '100%'), t=L('0%', '13%', '50%', '100%')),
-                dict(q=L('10%', '50%'), t=L('0%', '10%', '50%', '100%')), ALPHA_SLOT]),
+                dict(q=L('0%', '50%', '100%'), t=L('0%', '13%', '50%', '100%', '50')),
+                dict(q=L('10%', '50%'), t=L('0%', '10%', '50%', '100%', '50')), ALPHA_SLOT]),
     dict(fam='colortok', props=COLOR_PROPS + ['border-top-color', 'stroke', 'text-emphasis-color', 'column-rule', 'text-shadow', 'outline'],
          kind='list', min=1, max=dict(q=1, t=1),
          slots=[dict(q='COLORTOKS_Q', t='COLORTOKS_T')]),
@@ -268,6 +272,23 @@ FAMS = [
                 dict(q=L('top', 'calc', 'translate', 'var'), t=L('top', 'calc', 'translate', 'var', 'min', 'foo', 'rotate'))]),
     dict(fam='strurl', props=['content', 'background-image', 'src', 'cursor', 'x'], kind='list', min=1, max=dict(q=1, t=2),
          slots=[dict(q='STRURL', t='STRURL')]),
+    dict(fam='passthru', props=['transition', 'border-radius', 'transform', 'grid-template-columns', 'animation', 'list-style', 'clip-path', 'will-change'],
+         kind='list', min=1, max=dict(q=2, t=3),
+         slots=[dict(q=L('all', '.30s', '0s', '0ms', 'ease-in-out', '0px', '1.0px', '/', ',', 'translate(0px,10.0%)', 'rotate(0deg)', 'scale(1.0,.50)', 'repeat(2,1fr)',
+                         'minmax(0px,1fr)', 'cubic-bezier(0.10,0,1.0,1)', '#FF0000', 'Slide-In', 'url(a.png)', 'inset(0px 1px)', '50%'),
+                     t=L('all', '.30s', '0s', '0ms', '1e3ms', 'ease-in-out', '0px', '1.0px', '/', ',', 'translate(0px,10.0%)', 'rotate(0deg)', 'rotate(0.50turn)', 'scale(1.0,.50)',
+                         'repeat(2,1fr)', 'minmax(0px,1fr)', 'cubic-bezier(0.10,0,1.0,1)', '#FF0000', 'rgba(0,0,0,.50)', 'Slide-In', 'url(a.png)', 'inset(0px 1px)', '50%',
+                         'steps(2,jump-end)', 'calc(100% - 0px)', 'infinite', '1fr', '0fr', '[full-start]', 'fit-content(0px)', '"a b"'))]),
+    dict(fam='media', props=[], kind='at', atname='media', min=1, max=dict(q=3, t=4),
+         slots=[dict(q=L('screen', 'print', 'and', 'not', 'only', '(min-width:100px)', '(max-width : 0px)', '(orientation:landscape)', ',', 'ALL',
+                         '(-webkit-min-device-pixel-ratio:1.50)', '(min-resolution:144dpi)'),
+                     t=L('screen', 'print', 'and', 'not', 'only', 'or', '(min-width:100px)', '(max-width : 0px)', '(orientation:landscape)', ',', 'ALL',
+                         '(-webkit-min-device-pixel-ratio:1.50)', '(min-resolution:144dpi)', '(width>=600.0px)', '(400px<=width<=700px)', '(min-aspect-ratio:16/9)',
+                         '( color )', '(min-width:calc(1px + 0px))'))]),
+    dict(fam='supports', props=[], kind='at', atname='supports', min=1, max=dict(q=2, t=3),
+         slots=[dict(q=L('(display:grid)', 'and', 'or', 'not', '(not (display:inline-grid))', '(color:#FF0000)', 'selector(A > B)', '(margin:0px)'),
+                     t=L('(display:grid)', 'and', 'or', 'not', '(not (display:inline-grid))', '(color:#FF0000)', 'selector(A > B)', '(margin:0px)', '(--x: 0px )',
+                         'font-tech(color-COLRv1)', '( transform : rotate( 0deg ) )'))]),
     dict(fam='sel', props=[], kind='sel', min=1, max=dict(q=3, t=3), slots=[dict(q='SEL_Q', t='SEL_T')]),
 ]
 COLORTOKS_Q = ['#000', '#FFF', '#f00', '#FF0000', '#ff0000', '#c0c0c0', '#aabbcc', '#AABBCCDD', '#aabbccff', '#0000', '#00000000', '#abcd', '#abcf',
@@ -279,7 +300,9 @@ STRURL = ['"a"', "'a'", '"a\\\nb"', '"a\\"b"', "'it\\'s'", '"\\61 b"', '""', 'ur
           'url("data:image/png;base64,iVBORw0KGgo=")', 'url()', 'url("")', "local('Foo Bar')", 'local("Foo")', 'format("woff")', ',']
 SEL_Q = [('a', 'type'), ('DIV', 'type'), ('*', 'type'), ('.Cls', 'sub'), ('#Id', 'sub'), (' > ', 'comb'), ('+', 'comb'), (' ~ ', 'comb'), (' ', 'comb'), (' , ', 'comb'),
          ('[type="radio"]', 'sub'), (':hover', 'sub'), ('::before', 'sub'), (':not(.x)', 'sub'), (':nth-child(2n + 1)', 'sub')]
-SEL_T = SEL_Q + [("[a='b c' i]", 'sub'), ('[ title ~= "x" ]', 'sub'), (':NOT( P , .y )', 'sub'), (':nth-of-type( -n + 3 )', 'sub'), ('[data-x="1a"]', 'sub'),
+SEL_T = SEL_Q + [(':HOVER', 'sub'), ('::First-Line', 'sub'), (':nth-child(2N+1 of .Cls)', 'sub'), ('[lang|=EN]', 'sub'), ('[href$=".PDF" s]', 'sub'), ('[a^=\'x\']', 'sub'),
+                 ('[data-a=""]', 'sub'), (':is( a , B )', 'sub'), (':where(.X>.Y)', 'sub'), (':has(> IMG)', 'sub'), (':nth-last-child( EVEN )', 'sub'), ('#Id-2', 'sub'), ('.a\\:b', 'sub'),
+                 ("[a='b c' i]", 'sub'), ('[ title ~= "x" ]', 'sub'), (':NOT( P , .y )', 'sub'), (':nth-of-type( -n + 3 )', 'sub'), ('[data-x="1a"]', 'sub'),
                  (':lang(EN)', 'sub'), ('[type=a i]', 'sub'), (':nth-child(odd)', 'sub'), ('svg|a', 'type')]
 
 
@@ -354,7 +377,7 @@ def write_alpha(ctx, exe, tier):
             stoks[x] = pre[1:-1]
     fams = []
     for F in FAMS:
-        rec = dict(fam=F['fam'], pn=F['props'][0].split(':')[0] if F['props'] else '', kind=F['kind'], min=F.get('min', 0),
+        rec = dict(fam=F['fam'], pn=F['props'][0].split(':')[0] if F['props'] else F.get('atname', ''), kind=F['kind'], min=F.get('min', 0),
                    max=F.get('max', dict(q=0, t=0))[tier], fn=F.get('fn', ''), sep=F.get('sep', ''), slots=[])
         for slot in F['slots']:
             ents = []
@@ -383,7 +406,7 @@ def write_alpha(ctx, exe, tier):
 
 def render(F, fam, seq):
     """text of the value (or selector) a generator state stands for; mirrors CssGen!Toks"""
-    lex = lambda j: fam['slots'][0 if F['kind'] in ('list', 'sel', 'clist') else j][seq[j] - 1]['lex']
+    lex = lambda j: fam['slots'][0 if F['kind'] in ('list', 'sel', 'clist', 'at') else j][seq[j] - 1]['lex']
     n = len(seq)
     if F['kind'] == 'list':
         return ' '.join(lex(j) for j in range(n))
@@ -391,6 +414,8 @@ def render(F, fam, seq):
         return ''.join(lex(j) for j in range(n))
     if F['kind'] == 'clist':
         return ','.join(lex(j) for j in range(n))
+    if F['kind'] == 'at':
+        return ' '.join(lex(j) for j in range(n))
     if F['kind'] == 'func':
         a = [lex(j) for j in range(4)]
         if F['sep'] == 'comma':
@@ -424,7 +449,7 @@ def parse_dump(path):
 
 
 def complete(F, fam, seq):
-    if F['kind'] in ('list', 'sel', 'clist'):
+    if F['kind'] in ('list', 'sel', 'clist', 'at'):
         return len(seq) >= fam['min']
     return len(seq) == len(fam['slots'])
 
@@ -432,12 +457,10 @@ def complete(F, fam, seq):
 # narrow syntactic constructs of known findings: the generator does not emit them (the pinned
 # witnesses in known/C04.ndjson keep the defects visible)
 GENERIC_FAMILIES = {'serif', 'sans-serif', 'monospace', 'cursive', 'fantasy', 'system-ui', 'inherit', 'initial', 'unset', 'default', 'revert'}
-ANGLE_UNITS = {'deg', 'grad', 'rad', 'turn'}
-NUM_ZERO = re.compile(r'^[+-]?(0*\.?0*)(e[+-]?\d+)?$', re.I)
 
 
 # VERIF_C04_LIFT=1,9,...: switch single exclusions off (used to verify a fix of the defect in a
-# patched tree; an id is the number of the finding in known/C04.txt / the final report)
+# patched tree; an id is the number of the finding: 3 border-color list, 4 quoted generic family, 6 #rrggbb00, 11/12 font family heuristics)
 LIFT = set(x for x in os.environ.get('VERIF_C04_LIFT', '').split(',') if x)
 
 
@@ -450,8 +473,6 @@ def excluded(F, prop, text, lexs, css2):
 
 def _exclusion_hits(F, prop, text, lexs, css2):
     fam = F['fam']
-    if fam == 'num' and css2 and re.match(r'^[+-]?0*\.?0*e', lexs[0], re.I) and re.match(r'^[+-]?0', lexs[0]):
-        yield '10', 'KeepCSS2: zero with an exponent part (0e5)'
     if fam == 'font':
         sizeish = [j for j, x in enumerate(lexs) if re.match(r'^[\d.]', x) and j > 0 and lexs[j - 1] == '/' or re.match(r'^([\d.]+(px|em|%)|0|medium)$', x, re.I)]
         if len(sizeish) >= 2 and any(lexs[j].lower() == 'medium' for j in sizeish[1:]):
@@ -465,15 +486,8 @@ def _exclusion_hits(F, prop, text, lexs, css2):
         yield '3', 'border-color: currentcolor inside a list of 2-4 colours'
     if fam in ('font', 'fontfamily') and any(len(x) > 2 and x[0] in '"\'' and x[1:-1].lower() in GENERIC_FAMILIES for x in lexs):
         yield '4', 'font-family: quoted generic-family / CSS-wide keyword'
-    if fam == 'num' and lexs[2] == 'top' and lexs[1].lower() in ANGLE_UNITS and NUM_ZERO.match(lexs[0]):
-        yield '5', 'zero <angle> directly in a declaration value'
     if fam == 'colortok' and re.match(r'^#[0-9a-fA-F]{6}00$|^#[0-9a-fA-F]{3}0$', text) and text.lower() not in ('#00000000', '#0000'):
         yield '6', 'hex colour with alpha 00 and non-black channels'
-    if fam == 'background' and sum(1 for x in lexs if x.lower() in ('padding-box', 'border-box', 'content-box')) > 2:
-        yield '9', 'background: more than two box keywords in a layer (panic)'
-    if fam in ('bgpos', 'background') and re.search(r'\b(right|bottom)\s+-?[\d.]+%', text, re.I) and \
-            len(re.findall(r'\b(left|right|top|bottom|center)\b', text, re.I)) >= 2:
-        yield '1', 'background-position: right/bottom with a percentage offset in the 3/4-value syntax'
 
 
 # ------------------------------------------------------------------ structure templates
@@ -540,7 +554,7 @@ def gen_cases(ctx):
     cases = []
     per_fam = {}
     excl = {}
-    cap = 4000 if ctx.quick() else 20000
+    cap = 1500 if ctx.quick() else 20000
     nok = {}
     for st in states:
         if st['ok']:
@@ -552,7 +566,7 @@ def gen_cases(ctx):
         if not complete(F, fam, st['seq']):
             continue
         text = render(F, fam, st['seq'])
-        lexs = [fam['slots'][0 if F['kind'] in ('list', 'sel', 'clist') else j][c - 1]['lex'] for j, c in enumerate(st['seq'])]
+        lexs = [fam['slots'][0 if F['kind'] in ('list', 'sel', 'clist', 'at') else j][c - 1]['lex'] for j, c in enumerate(st['seq'])]
         per_fam.setdefault(F['fam'], [0, 0])
         per_fam[F['fam']][0] += 1
         if F['kind'] == 'sel':
@@ -560,6 +574,15 @@ def gen_cases(ctx):
                 continue
             per_fam[F['fam']][1] += 1
             cases.append(mk(text + '{x:y}', False, False, 'gen:sel'))
+            continue
+        if F['kind'] == 'at':
+            if not st['ok']:
+                continue
+            per_fam[F['fam']][1] += 1
+            for css2 in ((False,) if ctx.quick() else (False, True)):
+                cases.append(mk('@%s %s{a{color:#FF0000}}' % (F['atname'], text), False, css2, 'gen:' + F['fam']))
+            if not ctx.quick():
+                cases.append(mk('@%s  %s  {\n a { color : #FF0000 }\n}' % (F['atname'].upper(), text.replace(' ', '   ')), False, False, 'gen:' + F['fam']))
             continue
         if not st['ok'] and ctx.rnd.random() > (0.05 if ctx.quick() else 0.1):
             continue        # values outside the meaning functions' domain: a sample only (totality of the code)
